@@ -513,33 +513,12 @@ func errorEdgeBlocks(call *ssa.Call) map[*ssa.BasicBlock]bool {
 					}
 				}
 			}
-			// the error kept in a variable that lives in memory (a named result, a captured local): the test
-			// loads the cell the error was stored into, in the block of that store and after it
+			// the error kept in a variable that lives in memory (a named result kept in a cell because of a defer,
+			// a captured local): the test loads a cell the error was stored into — the memory counterpart of the phi
 			if ld, ok := v.(*ssa.UnOp); ok && ld.Op == token.MUL {
-				if al, isAl := ld.X.(*ssa.Alloc); isAl {
-					for _, ref := range flow.Referrers(al) {
-						st, isSt := ref.(*ssa.Store)
-						if !isSt || st.Addr != ssa.Value(al) || st.Val != errv || st.Block() != ld.Block() {
-							continue
-						}
-						// no other store to the cell between the two
-						clean, after := true, false
-						for _, in := range ld.Block().Instrs {
-							if in == ssa.Instruction(st) {
-								after = true
-								continue
-							}
-							if in == ssa.Instruction(ld) {
-								break
-							}
-							if o, isO := in.(*ssa.Store); isO && after && o.Addr == ssa.Value(al) {
-								clean = false
-							}
-							if _, isCall := in.(ssa.CallInstruction); isCall && after {
-								clean = false // a call may write the cell through a captured reference
-							}
-						}
-						if clean && after {
+				if _, isAl := ld.X.(*ssa.Alloc); isAl {
+					for _, src := range flow.SpillSources(ld) {
+						if src == errv {
 							return true
 						}
 					}
